@@ -48,7 +48,7 @@ CHECKS = {
    note="Trusted: gosqlx.Parse of a segment alone as the classifier; parser token indices equal generated token indices (GROUPING SETS, the one compound token that is not re-split, is not generated here).",
    design="4/C12"),
  "C14": dict(
-   technique="property-based testing: differential between ast.Inspect's visit multiset and a reflection walk over every exported field (generated trees), plus an exhaustive marker sweep over every (node type, node-holding field) of a registry generated from the sources; thorough tier adds coverage-guided native fuzzing (go test -fuzz over rapid.MakeFuzz) of the same generator and oracle",
+   technique="property-based testing: differential between ast.Inspect's visit multiset and a reflection walk over every exported field (generated trees), plus an exhaustive marker sweep over every (node type, node-holding field) of a registry generated from the sources, and a metamorphic check of a traversal-based transform (ReplaceTable leaves no occurrence of the old name at any nesting depth); thorough tier adds coverage-guided native fuzzing (go test -fuzz over rapid.MakeFuzz) of the same generator and oracle",
    level="exploration",
    text="Generated-input search: for trees parsed from generated statements the multiset of (type, content) of nodes handed to ast.Inspect's callback must equal the multiset of node-typed values reachable by reflection through every exported field - missing and extra nodes are both violations. Exhaustive sub-check: for every node type of package ast and every field that can hold a node, a marker planted in that field must be visited (the registry is regenerated from the tree under test, so new types and fields are covered).",
    note="Trusted: 'part of the tree' = reachable through exported fields; node = T or *T implements ast.Node; empty-interface payload fields are not node holders. One listed finding (window frame bounds) is pinned by the existing suite and therefore not repaired.",
